@@ -450,3 +450,75 @@ def r6(ctx):
         yield VIOL("C09-R6", "canonicalize_uri_path/component-added", "`%s` adds an element to the component list that is not a normalised component taken in the resolution loop (%d site(s)): the canonical path gains a segment the request path does not have" % (bad[0][1]["callee"].split("::")[-1], len(bad)), where=b.span_of_block(bad[0][0]))
     else:
         yield PASS("C09-R6", "canonicalize_uri_path/components-only-shrink", "%d growth site(s) on the component list, each a normalised component inside the loop" % len(vecs), [])
+
+
+ENTRY = "signature::sigv4_validate_request"
+FRP = "canonical::CanonicalRequest::from_request_parts"
+OPT_HANDOFF = [(ENTRY, True, r"CanonicalRequest::from_request_parts$", {2: "options"})]
+
+
+@M.rule("C09-R7", "the canonicaliser sees the request's own path in the caller's own mode, and its only shortcut is the empty / \"/\" path")
+def r7(ctx):
+    """(a) the caller's SignatureOptions reach from_request_parts as given (a mode chosen from the service name replaces
+    standard-mode resolution by S3 preservation); (b) the path handed to canonicalize_uri_path is `parts.uri.path()` from
+    a single source (a `match` that substitutes "" for a relative path turns the refusal into the root path);
+    (c) before the absolute-path test, the input is only asked whether it is empty or equal to "/"."""
+    for r in handoff_results(ctx, "C09-R7", OPT_HANDOFF, VIOL, PASS, site, "path canonicalisation (and form folding) runs in a mode the caller did not ask for"):
+        yield r
+    b = ctx.fn(FRP)
+    cp = one(b.calls(r"canonical::canonicalize_uri_path$"), "call of canonicalize_uri_path")
+    ctx.count()
+    # chain walk (not a slice: `parts` is re-bound by the folding code later in the function)
+    o_ = cp[1]["args"][0]
+    why = None
+    for _ in range(8):
+        od_ = b.origin_def(o_)
+        if od_ and od_[0] == "def" and od_[1]["kind"] == "call":
+            cal = od_[1]["term"]["callee"]
+            if re.search(r"Uri::path$", cal):
+                break
+            if re.search(r"Deref::deref$|AsRef::as_ref$|Borrow::borrow$", cal):
+                o_ = od_[1]["term"]["args"][0]
+                continue
+            why = "through `%s`" % cal.split("::")[-1]
+            break
+        why = "the value has several sources or is not the result of Uri::path"
+        break
+    else:
+        why = "conversion chain too long"
+    if why:
+        yield VIOL("C09-R7", "from_request_parts/path-single-source", "the path handed to canonicalize_uri_path is not `parts.uri.path()` alone (%s): another value stands in for some request paths" % why, where=b.span_of_block(cp[0]))
+    else:
+        yield PASS("C09-R7", "from_request_parts/path-single-source", "canonicalize_uri_path(parts.uri.path(), ..): one source, no substitute value", [site(b, cp[0], "canonicalize_uri_path")])
+    # (c)
+    c = ctx.fn(CUP)
+    inp = param_by_name(c, "uri_path")
+    sw = [(bi, t) for bi, t in c.calls(r"str>::starts_with$") if inp in c.slice_op(t["args"][0]).locals and const_value(op_const(t["args"][1]) or {}) == ord("/")]
+    if not sw:
+        raise AnchorMissing("uri_path.starts_with('/') in canonicalize_uri_path")
+    pre = c._reachable_from(0, avoid={bi for bi, _ in sw})
+    odd = []
+    n = 0
+    for bi in sorted(pre):
+        t = c.blocks[bi]["term"]
+        if t["k"] != "call" or bi in {x for x, _ in sw}:
+            continue
+        args = t.get("args", [])
+        if not any(inp in c.slice_op(a, stop_at_calls=lambda t_: True).locals for a in args):
+            continue
+        n += 1
+        cal = t["callee"]
+        if re.search(r"str>::is_empty$|str>::len$", cal):
+            continue
+        if re.search(r"PartialEq.*::(eq|ne)$", cal):
+            cv = [v for a in args for v in c.slice_op(a).const_values()]
+            if cv == ["/"]:
+                continue
+        if re.search(r"Deref::deref$|AsRef::as_ref$|Borrow::borrow$|str>::as_bytes$|fmt::|trace|log::", cal):
+            continue
+        odd.append((bi, cal))
+    ctx.count(max(1, n))
+    if odd:
+        yield VIOL("C09-R7", "canonicalize_uri_path/special-case-set", "before the absolute-path test the path is also examined by `%s`: the shortcut to \"/\" (or another early exit) admits more than the empty / \"/\" path" % odd[0][1].split("::")[-1], where=c.span_of_block(odd[0][0]))
+    else:
+        yield PASS("C09-R7", "canonicalize_uri_path/special-case-set", "%d examination(s) of the input before starts_with('/'): is_empty / == \"/\" only" % n, [])
